@@ -54,8 +54,11 @@ class TwistedServer(DatagramProtocol):
         """
 
         for pkt, key, addr in seq:
-            datagram = pkt.to_bytes(key)
-            self.transport.write(datagram, addr)
+            try:
+                datagram = pkt.to_bytes(key)
+                self.transport.write(datagram, addr)
+            except Exception as e:
+                self.ctxt.log.exception("unable to send packet to %s", addr)
 
     def datagramReceived(self, datagram, addr):
         """ private called when a datagram is receeived from addr
